@@ -173,6 +173,11 @@ func validateUUID(uuid string) error {
 	if err != nil {
 		return fmt.Errorf("uuid: %s: %w", uuid, err)
 	}
+	// googleuuid.Parse drops the first and last characters of a 38 character
+	// value without looking at them: make sure they are braces.
+	if len(uuid) == 38 && (uuid[0] != '{' || uuid[37] != '}') {
+		return fmt.Errorf("uuid: %s: invalid UUID format", uuid)
+	}
 
 	if u.Variant() != googleuuid.RFC4122 {
 		return fmt.Errorf("uuid: expected RFC4122 format, but got %s", u.Variant().String())
